@@ -11,6 +11,34 @@ CHECKS = {
         "every line 0..13 is decided by the solver against the set denotation; run level: 7 records with symbolic blank flags.",
    design="3/C02", technique="symbolic execution of the real scanner productions + run loop (CrossHair/z3), all paths within bounds"),
 }
+CHECKS.update({
+ "C03": dict(
+   text="Bounded symbolic execution of real CsvPath runs: assignment chains, tracking-keyed assignments with qualifiers, one-step "
+        "push/pop/peek from a symbolic stack pre-state, per-line count_lines/count_scans/line_number/count and scan/match counters "
+        "under symbolic scan start, match threshold and blank flags (incl. a blank first record), and the named bookkeeping of "
+        "tally/count(x)/subtotal/first/sum/counter/every; each compared with a left-to-right fold written from the docs.",
+   design="3/C03", technique="symbolic execution of real runs vs reference folds (CrossHair/z3), all paths within bounds"),
+ "C05": dict(
+   text="Kernel: ErrorHandler.handle_error for all 2^6 policy subsets x 3^4 validation-mode overrides (symbolic). In run: a fault of "
+        "five kinds on a symbolic line under a symbolic policy, with and without validation-mode comments and with a stop() on the "
+        "same line: raised/collected/stopped/failed/printed exactly as the policy says, line k does not match, side effects before/after.",
+   design="3/C05", technique="symbolic execution of the real error handler and of faulting runs (CrossHair/z3), all paths within bounds"),
+ "C07": dict(
+   text="Relational symbolic execution: three fresh real CsvPath objects run collect(), next() and fast_forward() on the same symbolic "
+        "inputs (firing line, advance count, blank flags) for templates with stop/skip/advance/last/print/fail/error; equal lines and "
+        "equal state is asserted on every path; collect(nexts=n) for symbolic n against the cut run.",
+   design="3/C07", technique="relational symbolic execution of the three run methods (CrossHair/z3), all paths within bounds"),
+ "C13": dict(
+   text="Bounded symbolic execution of real runs with stop/skip/advance at first/middle/last position firing on a symbolic line, "
+        "symbolic advance count, symbolic interior/trailing blank flags, and last() under a symbolic scan end; returned lines, pushes "
+        "before/after the control component and counters compared with a fold written from the docs.",
+   design="3/C13", technique="symbolic execution of real runs vs reference fold (CrossHair/z3), all paths within bounds"),
+ "C14": dict(
+   text="One real _consider_line of '[@x.<quals> = @y  @m.asbool]' with all 8 qualifier flags, the pre-state of x, the new value y "
+        "(Optional ints) and the rest-of-line vote symbolic: write and line result equal the table of docs/assignment.md on every path "
+        "(inductive step: covers value sequences of any length within the int window).",
+   design="3/C14", technique="symbolic execution of the real assignment path for all qualifier subsets (CrossHair/z3)"),
+})
 NA = {
 }
 def main():
